@@ -4,6 +4,7 @@ import (
 	"encoding/json"
 	"fmt"
 	"time"
+	"unicode/utf8"
 
 	"github.com/matrix-org/gomatrixserverlib/spec"
 	"github.com/matrix-org/util"
@@ -229,6 +230,12 @@ func (eb *EventBuilder) Build(
 	// Other servers (and NewEventFromUntrustedJSON) refuse events in which an
 	// object repeats a member name, so don't build one.
 	if err = checkNoDuplicateKeys(eventJSON); err != nil {
+		return
+	}
+	// ... nor one that is not UTF-8 (the proto-event's content and unsigned are
+	// raw JSON and go into the event as they are),
+	if !utf8.Valid(eventJSON) {
+		err = fmt.Errorf("EventBuilder.Build: event is not valid UTF-8")
 		return
 	}
 	// ... nor one whose content is not an object, or whose signatures (the
